@@ -16,6 +16,8 @@ import (
 var supportingKinds = map[string]bool{
 	"pre": true, "frame": true, "inv-entry": true, "inv-preserved": true, "decreases": true,
 	"panic": true, "assert": true, "crash_inv": true, "footprint": true,
+	// unlabelled postconditions are what callers assume: they are decided wherever the function is
+	"ensures": true, "panic_ensures": true,
 }
 
 // safety kinds: run-time panics, counted for C15
